@@ -127,7 +127,7 @@ XMLReader::XMLReader(const  XMLCh* const          pubId
     try
     {
         // Do an initial load of raw bytes
-        refreshRawBuffer();
+        loadInitialRawBytes();
     }
     catch (const XMLPlatformUtilsException&)
     {
@@ -218,7 +218,7 @@ XMLReader::XMLReader(const  XMLCh* const          pubId
     try
     {
         // Do an initial load of raw bytes
-        refreshRawBuffer();
+        loadInitialRawBytes();
     }
     catch (const XMLPlatformUtilsException&)
     {
@@ -409,7 +409,7 @@ XMLReader::XMLReader(const  XMLCh* const          pubId
     try
     {
         // Do an initial load of raw bytes
-        refreshRawBuffer();
+        loadInitialRawBytes();
     }
     catch (const XMLPlatformUtilsException&)
     {
@@ -1914,6 +1914,29 @@ void XMLReader::refreshRawBuffer()
     //  since any trailing data was copied down to the start.
     //
     fRawBufIndex = 0;
+}
+
+
+//
+//  The encoding probe and the manual decoding of the XMLDecl/TextDecl done
+//  by the constructors only look at the bytes delivered by the initial load.
+//  A stream is allowed to return fewer bytes than requested, so keep reading
+//  until the raw buffer is full or the stream is exhausted; otherwise the
+//  outcome would depend on how the stream happens to chunk its data.
+//
+void XMLReader::loadInitialRawBytes()
+{
+    refreshRawBuffer();
+    while (fRawBytesAvail && (fRawBytesAvail < kRawBufSize))
+    {
+        const XMLSize_t got = fStream->readBytes
+        (
+            &fRawByteBuf[fRawBytesAvail], kRawBufSize - fRawBytesAvail
+        );
+        if (!got)
+            break;
+        fRawBytesAvail += got;
+    }
 }
 
 
